@@ -307,8 +307,8 @@ func (s *sys) fail(format string, a ...any) {
 func (s *sys) settleWorker() {
 	deadline := time.Now().Add(20 * time.Second)
 	for {
+		depth := s.buf.VerifC07QueueDepth() // read BEFORE the counters (the worker counts, then decrements)
 		taken, done := ingest.VerifC07Counters()
-		depth := s.buf.VerifC07QueueDepth()
 		if taken == done && depth == 0 {
 			return
 		}
